@@ -24,7 +24,10 @@ def run(P, rep, tier):
                        'finite cell per token, refined by the comparisons the code performs), plus exhaustive evaluation of the pure '
                        'helpers (hide-set union/intersection/membership, add_hideset, append, quote_string, join_tokens) on a small '
                        'complete domain by the interpreter. Not decided: the emitted token sequence for all definitions/invocations '
-                       '(placemarker bookkeeping of ## with empty operands is outside the claimed clauses).')
+                       '. Round 4 adds: argument token lists are shared and stay untouched (R09.12), placemarker handling of ## with empty operands on a '
+                       'sub-language of replacement lists (R09.13), ## in object-like macros (R09.14), an empty replacement leaves the following token '
+                       'alone (R09.15), replacement results are never directives (R09.16), and the token boundaries (pp-number, identifier, #, ##, ...) '
+                       'macro replacement works on, by running one round of the tokenizer loop on concrete texts (R09.17).')
     rep.assumptions += ['calloc succeeds', 'loops over token lists are analysed for 0..2 generic iterations',
                         'tokenize() returns a NUL/EOF-terminated token list', 'clang 14 typed AST']
     shared = {}
@@ -642,7 +645,7 @@ def r_subst(P, u, rep):
     fn = 'subst'
     it, paths, classes = explore_subst(P, u)
     line = u.fn(fn).line
-    rep.rule('R09.13', 'placemarkers (C11 6.10.3.3p2-3): an operand of ## that is an empty argument behaves as a placemarker - subst diagnoses a replacement list only for what the list itself shows (# not followed by a parameter, ## first, ## last), never because an operand happened to be empty in this invocation; paste() is called with the token that stands for the operand left of the operator (looking through empty operands: `x ## y ## z` with y empty pastes x and z), and not at all when everything left of the operator back to the previous non-operand is empty', floor=5)
+    rep.rule('R09.13', 'placemarkers (C11 6.10.3.3p2-3): an operand of ## that is an empty argument behaves as a placemarker - subst diagnoses a replacement list only for what the list itself shows (# not followed by a parameter, ## first, ## last), never because an operand happened to be empty in this invocation; paste() is called with the token that stands for the operand left of the operator (looking through empty operands: `x ## y ## z` with y empty pastes x and z), and not at all when everything left of the operator back to the previous non-operand is empty', floor=4)
     rep.rule('R09.3', 'in subst the operands of # and ## are taken unexpanded (stringize/paste/copy of arg->tok), and exactly the parameters that are not operands of # or ## are replaced by preprocess2(arg->tok)', floor=10)
     for need in ('#', '##'):
         if need not in classes:
@@ -992,9 +995,19 @@ def r_arg_sharing(P, u, rep, it, paths):
                 rawobj[id(v)] = v
                 v = it.settle(v.fields.get('next', 0))
                 k += 1
+        eofk = u.enums.get('TK_EOF')
         for e in ctx.events:
             if e[0] == 'fstore':
                 o = e[1]
+                if isinstance(o, Obj) and id(o) in sp.body_ids and not o.meta.get('created'):
+                    A.ob('R09.12', '%s:%s:replacement-list-token-written(%s)' % (U, fn, e[2]), False,
+                         'subst writes the member %s of a token of the macro\'s replacement list itself (not of a copy): the stored body of the macro is changed for every later invocation' % e[2], w0, facts)
+                nb = it.settle(e[4]) if e[2] == 'next' else None
+                if isinstance(nb, Obj) and id(nb) in sp.body_ids and not (isinstance(o, Obj) and id(o) in sp.body_ids):
+                    kb = it.settle(nb.fields['kind']) if 'kind' in nb.fields else None
+                    if not (isinstance(kb, int) and kb == eofk):
+                        A.ob('R09.12', '%s:%s:replacement-list-token-linked-into-result' % (U, fn), False,
+                             'a token of the macro\'s replacement list is itself (not a copy_token of it) linked into the list subst builds: the next `cur->next = ..` / `*cur = *paste(cur, ..)` rewrites the stored body of the macro, so later invocations expand to tokens of this one', w0, facts)
                 if isinstance(o, Obj) and id(o) in sp.raw:
                     A.ob('R09.12', '%s:%s:argument-token-written(%s)' % (U, fn, e[2]), False,
                          'subst writes the member %s of a token that belongs to the argument list of a parameter (not of a copy): the MacroArg is the same for every occurrence of the parameter, so a later `#x`, `x ## y` or plain `x` in the same replacement list sees the changed token' % e[2], w0, facts)
@@ -1664,31 +1677,67 @@ PPNUM_SAMPLES = [
 ]
 
 
+TOKEN_SAMPLES = [
+    # identifiers (C11 6.4.2.1; $ is accepted like gcc does): the longest run of letters, digits, underscore
+    ('abc+1', 'identifier-ends-before-operator'), ('a_b c', 'identifier-ends-before-operator'), ('f(x)', 'identifier-ends-before-operator'), ('a.b', 'identifier-ends-before-operator'), ('a##b', 'identifier-ends-before-operator'), ('x#y', 'identifier-ends-before-operator'),
+    ('_a1b2(', 'identifier-digits-and-underscore-continue'), ('x1 ', 'identifier-digits-and-underscore-continue'), ('__VA_ARGS__)', 'identifier-digits-and-underscore-continue'), ('a__1_,', 'identifier-digits-and-underscore-continue'), ('e1+2', 'identifier-digits-and-underscore-continue'),
+    # the punctuators the macro clauses depend on (C11 6.4.6, longest match)
+    ('##x', 'punctuator-paste-operator'), ('## #', 'punctuator-paste-operator'), ('###', 'punctuator-paste-operator'),
+    ('#x', 'punctuator-hash'), ('# #', 'punctuator-hash'), ('#(', 'punctuator-hash'),
+    ('...)', 'punctuator-ellipsis'), ('....', 'punctuator-ellipsis'),
+    ('..x', 'punctuator-period'), ('.x', 'punctuator-period'), ('.,', 'punctuator-period'),
+    ('(a', 'punctuator-parenthesis-comma'), (')(', 'punctuator-parenthesis-comma'), (',b', 'punctuator-parenthesis-comma'), ('((', 'punctuator-parenthesis-comma'), (',,', 'punctuator-parenthesis-comma'),
+]
+
+
 def _ppnum_oracle(text):
     import re
     m = re.match(r'\.?[0-9](?:[eEpP][+-]|[0-9A-Za-z_.])*', text)
     return m.group(0) if m else None
 
 
+def _token_oracle(text):
+    """(kind name, spelling) of the first preprocessing token of an ASCII text that starts with a digit, a period, a letter,
+    underscore, #, ( ) or comma"""
+    import re
+    n = _ppnum_oracle(text)
+    if n:
+        return 'TK_PP_NUM', n
+    m = re.match(r'[A-Za-z_$][A-Za-z_$0-9]*', text)
+    if m:
+        return 'TK_IDENT', m.group(0)
+    for pct in ('...', '##', '#', '(', ')', ',', '.'):
+        if text.startswith(pct):
+            return 'TK_PUNCT', pct
+    return None
+
+
 def r_pp_number(P, rep):
     """Token boundaries are an input of macro replacement: what is one pp-number is never looked at for macro names, and
-    is one operand of # and ##. C11 6.4.8: pp-number = [.]digit (digit | identifier-nondigit | e sign | E sign | p sign | P sign | .)*
-    - whatever the prefix; evaluated by running the pp-number arm of tokenize() on concrete texts."""
-    from ..lib_c09y import scan_with_arm
+    is one operand of # and ##; an identifier is looked up under its whole spelling; #, ##, ( , ) and ... are the
+    punctuators the macro clauses test. C11 6.4.8: pp-number = [.]digit (digit | identifier-nondigit | e sign | E sign |
+    p sign | P sign | .)* - whatever the prefix. Decided by running one round of tokenize()'s loop on concrete texts."""
+    from ..lib_c09y import first_tokens
     TU = 'tokenize.c'
     tu = P.unit(TU)
-    rep.rule('R09.17', 'a preprocessing number is lexed as C11 6.4.8 defines it, independent of any prefix: an optional period and a digit, continued by digits, letters, underscore, periods and by e/E/p/P immediately followed by + or - (so `0xE+BASE` and `1_000` are ONE token each: BASE and _000 are not macro names there, and # / ## see one operand); the pp-number arm of tokenize() run by the interpreter on concrete texts', floor=8)
+    rep.rule('R09.17', 'the preprocessing tokens macro replacement works on are cut as C11 6.4 prescribes: a preprocessing number is an optional period and a digit, continued by digits, letters, underscore, periods and by e/E/p/P immediately followed by + or - whatever its prefix (so `0xE+BASE` and `1_000` are ONE token each: BASE and _000 are not macro names there, and # / ## see one operand); an identifier is the longest run of letters, digits and underscore; ##, #, ..., ( ) and comma are punctuators by longest match - one round of the tokenize() loop run by the interpreter on concrete texts', floor=16)
     A = Agg(rep)
-    res, line = scan_with_arm(P, tu, 'TK_PP_NUM', [t for t, c in PPNUM_SAMPLES])
+    samples = PPNUM_SAMPLES + TOKEN_SAMPLES
+    res, line = first_tokens(P, tu, [t for t, c in samples])
     where = '%s:%d' % (TU, line)
-    for text, cat in PPNUM_SAMPLES:
-        want = _ppnum_oracle(text)
+    kinds = {tu.enums.get(k): k for k in ('TK_PP_NUM', 'TK_IDENT', 'TK_PUNCT', 'TK_NUM', 'TK_STR', 'TK_KEYWORD', 'TK_EOF') if tu.enums.get(k) is not None}
+    for text, cat in samples:
+        want = _token_oracle(text)
         got = res.get(text)
-        sp = got[0] if got else None
-        what = 'a longer' if sp and want and len(sp) > len(want) else 'a shorter'
-        A.ob('R09.17', '%s:tokenize:pp-number-%s' % (TU, cat), sp == want,
-             'on the text %r the pp-number arm makes the token %r; C11 6.4.8 makes %r one preprocessing number (%s token changes which identifiers macro replacement sees and what # and ## take as one operand: with `#define BASE 1`, `#define STR(x) #x`, `#define XSTR(x) STR(x)`, XSTR(0xE+BASE) must be "0xE+BASE")' % (text, sp, want, what),
-             where, {'text': text, 'token': sp, 'C11': want})
+        got = (kinds.get(got[0], got[0]), got[1]) if got else None
+        key = '%s:tokenize:%s' % (TU, cat if cat.startswith(('identifier', 'punctuator')) else 'pp-number-' + cat)
+        if cat.startswith(('identifier', 'punctuator')):
+            why = 'macro names are looked up, parameters recognised and the operators # / ## / ... / ( , ) tested on these tokens'
+        else:
+            why = 'a different token changes which identifiers macro replacement sees and what # and ## take as one operand: with `#define BASE 1`, `#define STR(x) #x`, `#define XSTR(x) STR(x)`, XSTR(0xE+BASE) must be "0xE+BASE"; `1_000` must not be `1` followed by the macro name `_000`'
+        A.ob('R09.17', key, got == want,
+             'on the text %r the tokenizer makes the token %r; C11 6.4 makes the first preprocessing token %r (%s)' % (text, got, want, why),
+             where, {'text': text, 'token': got, 'C11': want})
     A.flush()
 
 
